@@ -29,7 +29,14 @@
     whole text (`listPushHostlist_repaired_terminates`, `_repaired_text`)
   The unchanged `hostlist_deranged_string` (`ret > m`) violates the first, third and fourth point:
   `deranged_writes_in_bounds_false`, `deranged_truncation_iff_false` (kernel-decided witness D14).
-  * `opt_list` (`-q`, `-Q`): nothing is stored outside `wcoll_str[1024]`, for every list
+  * CALLERS, POLICY-FREE (Hostlist/PrintPolicy.lean): how big a caller's buffer is and whether it retries
+    with a bigger one is the caller's business, not the property's.  For EVERY retry policy (any sequence
+    of sizes ≥ 1, a fixed buffer included) every attempt stays inside the size it was given
+    (`caller_any_policy_in_bounds`), and what `opt_list` finally prints is what one call with the policy's
+    DISPLAY CAPACITY prints (`caller_any_policy_result`) — the one thing of the policy that is observable,
+    read off the real `pdsh -q` and `-Q` by the check; `list_push_hostlist` as it is now (no ceiling, fix b20e58e)
+    hands on the whole text of every list (`listPushGrow_text`)
+  * `opt_list` (`-q`, `-Q`) with the literal buffer: nothing is stored outside `wcoll_str[1024]`, for every list
     (`optList_ranged_in_bounds`, `optList_deranged_in_bounds`; these and `list_push_hostlist` are the
     only callers of the printing functions in src/pdsh and src/modules)
   * `hostlist_shift_range` / `hostlist_pop_range` with their RECORD bookkeeping (`shiftRangeRun`,
@@ -45,6 +52,7 @@ import PdshVerif.Hostlist.PrintRound2
 import PdshVerif.Hostlist.PrintCallers
 import PdshVerif.Hostlist.PrintMore
 import PdshVerif.Hostlist.PrintRangeMove
+import PdshVerif.Hostlist.PrintPolicy
 import PdshVerif.Hostlist.Edit
 
 namespace PdshVerif.C14
@@ -328,6 +336,109 @@ theorem optList_deranged_in_bounds (h : HL) (hg : GoodRecords h) :
   unfold optList
   simp only [↓reduceIte]
   split <;> rename_i b _ he <;> (rw [he] at this; exact this)
+
+/-! ### callers, whatever their buffer policy -/
+/-- ANY retry policy of `opt_list` (`-q` compressed / `-Q` expanded with the repaired D14): a first size
+    and any sequence of further sizes tried while truncation is reported — every attempt stores only inside
+    the size it announced (which is the size of the block the caller holds at that moment) -/
+theorem caller_any_policy_in_bounds (expand : Bool) (h : HL) (hg : GoodRecords h) (n : Nat) (rest : List Nat)
+    (hpos : ∀ m ∈ n :: rest, 1 ≤ m) :
+    ∀ a ∈ callerGrow (printCall true expand h) n rest, ∀ w ∈ a.2.1.log, w.1 < a.1 := by
+  intro a ha w hw
+  obtain ⟨hm, hc⟩ := callerGrow_sizes _ n rest a ha
+  have hn := hpos a.1 hm
+  have hb : a.2.1 = (printCall true expand h a.1).1 := by rw [← hc]
+  rw [hb] at hw
+  unfold printCall at hw
+  cases expand with
+  | true => exact (deranged_writes_in_bounds h hg a.1 hn).1 w hw
+  | false => exact (ranged_writes_in_bounds h a.1 hn).1 w hw
+
+/-- ... and the last attempt — what gets printed — is the one call made with the policy's display capacity
+    (the first size at which the function does not report truncation, else the last size): a growing
+    caller prints what a fixed buffer of that capacity prints -/
+theorem caller_any_policy_result (fixed expand : Bool) (h : HL) (n : Nat) (rest : List Nat) :
+    (callerGrow (printCall fixed expand h) n rest).getLast? =
+      some (capacity (printCall fixed expand h) n rest,
+            printCall fixed expand h (capacity (printCall fixed expand h) n rest)) :=
+  callerGrow_eq _ n rest
+
+/-- `opt_list` with a display buffer of ANY size n ≥ 1: nothing is stored outside it -/
+theorem optListN_in_bounds (n : Nat) (hn : 1 ≤ n) (expand : Bool) (h : HL) (hg : GoodRecords h) :
+    ∀ w ∈ (optListN n true expand h).1.log, w.1 < n := by
+  have hr := (ranged_writes_in_bounds h n hn).1
+  have hd := (deranged_writes_in_bounds h hg n hn).1
+  unfold optListN shown printCall
+  cases expand with
+  | true => simp only [↓reduceIte]; split <;> rename_i b _ he <;> (rw [he] at hd; exact hd)
+  | false => simp only [Bool.false_eq_true, ↓reduceIte]; split <;> rename_i b _ he <;> (rw [he] at hr; exact hr)
+
+/-- the capacity matters only when the text does not fit: EVERY display buffer that holds the text shows the
+    same thing, the whole text without a marker (what lets the check run the model with the smallest such
+    buffer when the caller's observed capacity is huge) -/
+theorem optListN_whole_when_fits (n : Nat) (expand : Bool) (h : HL) (hg : GoodRecords h)
+    (hne : NoEmptyName h.ranges.toList) (hz : NoNul h.ranges.toList)
+    (hfit : (if expand then PrintSpec.derangedText h else PrintSpec.rangedText h).length < n) :
+    (optListN n true expand h).2 = some (if expand then PrintSpec.derangedText h else PrintSpec.rangedText h) := by
+  have hn : 1 ≤ n := by omega
+  unfold optListN shown printCall
+  cases expand with
+  | false =>
+    simp only [Bool.false_eq_true, ↓reduceIte] at hfit ⊢
+    obtain ⟨r1, _⟩ := ranged_read h hg hne hz n hn
+    obtain ⟨e1, e2⟩ := r1 hfit
+    rw [show rangedString n h = ((rangedString n h).1, .ok (PrintSpec.rangedText h).length) from by rw [← e1]]
+    exact e2
+  | true =>
+    simp only [↓reduceIte] at hfit ⊢
+    obtain ⟨_, s, hs, hf, _⟩ := deranged_verdict h hg hz n hn
+    have hnt : (derangedString true n h).2 ≠ .trunc := by
+      intro ht
+      have := (deranged_truncation_iff h hg n hn).mp ht
+      omega
+    have htext : (derangedString true n h).1.text n = some (PrintSpec.derangedText h) := by
+      rw [← (hf hfit).2]; exact hs
+    cases hr : derangedString true n h with
+    | mk b r =>
+      rw [hr] at hnt htext
+      cases r with
+      | trunc => exact absurd rfl hnt
+      | ok k => exact htext
+
+/-- `list_push_hostlist` as /repo has it now (fix b20e58e: double until the text fits, no ceiling): with
+    enough rounds for the text (`|text| + 1 < n·2^f`) the WHOLE compressed text is handed on, whatever its
+    length — no list is cut any more -/
+theorem listPushGrow_text (h : HL) (hg : GoodRecords h) (hne : NoEmptyName h.ranges.toList)
+    (hz : NoNul h.ranges.toList) : ∀ (f n : Nat), 2 ≤ n → (PrintSpec.rangedText h).length + 1 < n * 2 ^ f →
+    ∃ b, listPushGrow h (f + 1) n = some (b, PrintSpec.rangedText h)
+  | 0, n, hn, hf => by
+    obtain ⟨r1, _⟩ := ranged_read h hg hne hz (n - 1) (by omega)
+    obtain ⟨e1, e2⟩ := r1 (by simp only [Nat.pow_zero, Nat.mul_one] at hf; omega)
+    refine ⟨(rangedString (n - 1) h).1, ?_⟩
+    simp only [listPushGrow]
+    rw [show rangedString (n - 1) h = ((rangedString (n - 1) h).1, .ok (PrintSpec.rangedText h).length) from by
+      rw [← e1]]
+    simp only [e2, Option.map_some]
+  | f + 1, n, hn, hf => by
+    obtain ⟨r1, r2⟩ := ranged_read h hg hne hz (n - 1) (by omega)
+    by_cases hfit : (PrintSpec.rangedText h).length < n - 1
+    · obtain ⟨e1, e2⟩ := r1 hfit
+      refine ⟨(rangedString (n - 1) h).1, ?_⟩
+      rw [listPushGrow]
+      rw [show rangedString (n - 1) h = ((rangedString (n - 1) h).1, .ok (PrintSpec.rangedText h).length) from by
+        rw [← e1]]
+      simp only [e2, Option.map_some]
+    · obtain ⟨e1, _⟩ := r2 (by omega)
+      have e : n * 2 ^ (f + 1) = 2 * n * 2 ^ f := by
+        rw [Nat.pow_succ, Nat.mul_comm (2 ^ f) 2, ← Nat.mul_assoc, Nat.mul_comm n 2]
+      obtain ⟨b, hb⟩ := listPushGrow_text h hg hne hz f (2 * n) (by omega) (by rw [← e]; exact hf)
+      refine ⟨b, ?_⟩
+      rw [listPushGrow]
+      rw [show rangedString (n - 1) h = ((rangedString (n - 1) h).1, .trunc) from by rw [← e1]]
+      exact hb
+
+/-- non-vacuity: a policy that doubles from 4 to 16 bytes shows `a[1-3],b5` (9 characters) in full -/
+example : capacity (printCall true false ⟨#[HRange.mk' ['a'] 1 3 1, HRange.mk' ['b'] 5 5 1], 4⟩) 4 [8, 16] = 16 := by decide
 
 /-- `list_push_hostlist`, UNCHANGED retry condition `(n*=2 < 0x7fffff)` (D2 / F14-XLOOP): the loop
     never ends exactly when the excluded list's compressed text needs 4095 bytes or more -/
